@@ -10,7 +10,7 @@ from vf.core import Ctx, Violation
 ID = "C34"
 LEVEL = "exploration"
 RULE = (
-    "Hypothesis-generated JSON values: None/bool/ints up to 1e100/finite floats/strings from a strategy "
+    "Hypothesis-generated JSON values: None/bool/ints up to 1e100/finite floats (incl. single-digit-mantissa powers of ten, whose display has no decimal point)/strings from a strategy "
     "biased to leading '[' '{' '\"', digit- and literal-looking text ('1_000', 'nan', 'true', '1e5', "
     "unicode digits, surrounding whitespace), and lists/dicts of those. Oracle: format_tag_value(v) "
     "never raises and parse_tag_value(format_tag_value(v)) equals v with bool/int/float/str type "
@@ -32,6 +32,10 @@ strings = st.one_of(tricky, st.text(chars, max_size=8),
 scalars = st.one_of(
     st.none(), st.booleans(), st.integers(-(10**100), 10**100), st.integers(-3, 3),
     st.floats(allow_nan=False, allow_infinity=False), strings,
+    # floats whose shortest repr is exponent notation WITHOUT a decimal point (1e+16, -4e+300, 1e-05),
+    # small-integer-valued and very small/large floats
+    st.builds(lambda m, e, sg: sg * float(f"{m}e{e}"), st.integers(1, 9), st.integers(-320, 307), st.sampled_from([1, -1])),
+    st.builds(float, st.integers(-5, 5)),
 )
 values = st.recursive(
     scalars,
